@@ -493,6 +493,32 @@ def _collision_programs():
          ("subroutine run_all(n)", ("run_all", "run_all", K_FUNCTION, None), None), ("  integer :: n", None, None),
          ("contains", None, None), ("  subroutine run(k)", None, None), ("    integer :: k", None, None), ("  end subroutine run", None, None),
          ("end subroutine run_all", None, "run_all")], [])
+    # END statements that repeat a generic spec with parentheses, and ENDFILE statements, which end nothing
+    ops = []
+    for spec, endspec in (("operator(+)", "operator(+)"), ("assignment(=)", "assignment (=)"), ("operator(.cross.)", "operator (.cross.)")):
+        ops += [(f"  interface {spec}", None, None), ("    module procedure " + {"o": "op_add", "a": "as_set"}.get(spec[0], "op_add") + ("" if spec != "operator(.cross.)" else "2"), None, None),
+                (f"  end interface {endspec}", None, None)]
+    P["end_interface_with_generic_spec"] = (
+        [("module opm", ("opm", "opm", K_MODULE, None), None), ("  implicit none", None, None),
+         ("  type :: num", ("num", "num", K_CLASS, "opm"), None), ("    integer :: v", None, None), ("  end type num", None, "num")] + ops +
+        [("contains", None, None),
+         ("  function op_add(a, b) result(c)", ("op_add", "op_add", K_FUNCTION, "opm"), None), ("    type(num), intent(in) :: a, b", None, None),
+         ("    type(num) :: c", None, None), ("    c%v = a%v + b%v", None, None), ("  end function op_add", None, "op_add"),
+         ("  function op_add2(a, b) result(c)", ("op_add2", "op_add2", K_FUNCTION, "opm"), None), ("    type(num), intent(in) :: a, b", None, None),
+         ("    type(num) :: c", None, None), ("    c%v = a%v - b%v", None, None), ("  end function op_add2", None, "op_add2"),
+         ("  subroutine as_set(a, b)", ("as_set", "as_set", K_FUNCTION, "opm"), None), ("    type(num), intent(out) :: a", None, None),
+         ("    integer, intent(in) :: b", None, None), ("    a%v = b", None, None), ("  end subroutine as_set", None, "as_set"),
+         ("end module opm", None, "opm"),
+         ("program opp", ("opp", "opp", K_MODULE, None), None), ("  use opm", None, None), ("  implicit none", None, None), ("end program opp", None, "opp")],
+        [("v", K_VARIABLE, "num", 3)])
+    P["endfile_statements"] = (
+        [("module efm", ("efm", "efm", K_MODULE, None), None), ("  implicit none", None, None), ("contains", None, None),
+         ("  subroutine ef1(u)", ("ef1", "ef1", K_FUNCTION, "efm"), None), ("    integer, intent(in) :: u", None, None),
+         ("    endfile u", None, None), ("    end file u", None, None), ("    endfile (unit=u)", None, None), ("    end file (u)", None, None),
+         ("    rewind u", None, None), ("  end subroutine ef1", None, "ef1"),
+         ("  subroutine ef2(u)", ("ef2", "ef2", K_FUNCTION, "efm"), None), ("    integer, intent(in) :: u", None, None),
+         ("    if (u > 0) end file u", None, None), ("    end file 10", None, None), ("  end subroutine ef2", None, "ef2"),
+         ("end module efm", None, "efm")], [])
     return P
 
 
